@@ -190,3 +190,29 @@ def _(c):
     c.raises("True", label="registration-refused")
     c.on_raise("gstate(us, up, ut) == old(gstate(us, up, ut))", "tables-as-when-the-inner-scope-was-opened")
     c.on_raise("'x1' in us._keys and 'x2' in us._keys", "outer-scope's-units-stay-registered")
+
+
+# ---- registration aborted by ANY raised exception -- also the ones that do not derive from Exception (KeyboardInterrupt from Ctrl-C or a
+#      notebook interrupt, SystemExit, GeneratorExit) -- at any unit: the tables are as before ------------------------------------------------
+ABORTS = ["KeyboardInterrupt", "SystemExit", "GeneratorExit", "MemoryError", "ValueError"]
+
+
+@contract(UE + ".__init__", ["C09"], name="UnitEnvironment.__init__[aborted-by-any-exception]")
+def _(c):
+    import builtins
+    c.bound = "two or three units, the first, second or third definition raising on the read of one of its entries; five exception classes"
+    for exc in ABORTS:
+        for pos in (0, 1, 2):
+            for key in ("magnitude", "dimensions"):
+                def pre(b, exc=exc, pos=pos, key=key):
+                    FM = b.model("faults", "FailingMapping")
+                    units = {}
+                    for i in range(pos + 1):
+                        d = dict(magnitude=b.real(f"x{i}_mag"), dimensions=b.list([1, 0, 0, 0, 0, 0, 0, 0]))
+                        if i == 0:
+                            d["definition"] = b.glob("units/unit_types.py::UnitType")
+                        units[f"x{i}"] = b.dict(d) if i < pos else b.call(FM, b.dict(d), key, b.call(b.const(getattr(builtins, exc))))
+                    return dict(args=[b.obj(UE), b.dict(units)], env=_env(b))
+                c.scenario(f"{exc}-at-unit-{pos}-{key}", pre)
+    c.raises("True", label="the-exception-reaches-the-caller")
+    c.on_raise("gstate(us, up, ut) == old(gstate(us, up, ut))", "tables-as-before-the-aborted-registration")
